@@ -70,6 +70,10 @@ def int_cells(rng, tier):
                     cells.append((t, v, form, mode, False))
                     if t in INTS_S and v > 0 and (form.startswith("dec") or rng.random() < 0.3):
                         cells.append((t, v, form, mode, True))
+                    if t not in INTS_S and 0 < v < 2 ** 127 and form.startswith("dec") and mode == "decl" and rng.random() < 0.25:
+                        # a negative decimal literal for an unsigned type is out of range: L1142 (with a suffix or in another
+                        # base it would be the operator `-` on an unsigned operand, E550, which C07 owns)
+                        cells.append((t, v, form, mode, True))
     return cells
 
 
